@@ -662,6 +662,8 @@ def _np_round(a, decimals=0, out=None):
 
 
 def _np_cross(a, b, axis=-1, **kw):
+    if axis is None:
+        axis = -1
     a, b = _obj(a), _obj(b)
     a, b = np.broadcast_arrays(a, b)
     a = np.moveaxis(a, axis, -1)
